@@ -1,5 +1,6 @@
 import BigtreeModel.Proto
 import BigtreeModel.Store
+import BigtreeModel.Bridge
 /-! Driver handler for property C01 (also the parser/printer used by C02, C03, C20).
 
 One line = one whole history:
@@ -12,7 +13,8 @@ the empty list; `<f>` ∈ `none|pre|post` is the user hook that raises):
 element `k`) · `R:p:c:f` (`p >> c`) · `L:c:p:f` (`c << p`) · `X:p:xname:f` (`del p[name]`) ·
 `S:v:ranks:rev` (`v.sort(key=ranks[id], reverse=rev)`) · `Z:v:xsep` (`v.sep = value`).
 
-Output: for each op `<ok|rej> <store>` joined by ` ; `, store = `i>parent[children]` per node. -/
+Output: for each op `<ok|rej> <store>` joined by ` ; `, store = `i>parent[children]` per node; with the
+leading token `rb=1` each step is followed by ` | ` and the read-back trees `( id xname - child* )`. -/
 namespace Drv.C01
 open Proto
 
@@ -87,9 +89,18 @@ def showStore (s : Store) : String :=
 def showTrace (tr : List (Outcome × Store)) : String :=
   " ; ".intercalate (tr.map fun (o, s) => showOutcome o ++ " " ++ showStore s)
 
+/-- the read-back of every tree of the store (`Store.forest`, roots in id order), for the bridge tie -/
+def showForest (s : Store) : String := " ".intercalate ((Store.forest s).map showTree)
+
+def showTraceRb (tr : List (Outcome × Store)) : String :=
+  " ; ".intercalate (tr.map fun (o, s) => showOutcome o ++ " " ++ showStore s ++ " | " ++ showForest s)
+
+/-- with the token `rb=1` every step also prints the read-back forest (`harness/props/_bridge_util.py`) -/
 def handle (toks : List String) : String :=
   match parseCase toks with
   | none => "bad-op"
-  | some c => showTrace (Store.trace c.cfg c.init c.ops)
+  | some c =>
+    let tr := Store.trace c.cfg c.init c.ops
+    if kv toks "rb" == some "1" then showTraceRb tr else showTrace tr
 
 end Drv.C01
